@@ -17,7 +17,7 @@ RULE = (
     "Metamorphic pairs of requests on one generated election with a complete feed (every baseline unit has a feed "
     "row): base request R and R' = subset / superset / permutation of the interval levels, of the aggregate levels, or "
     "of the vote-count estimands (conformal estimators; bootstrap varies levels and aggregates); offices G and H; three "
-    "estimators. Oracle: for every (estimand, level, alpha) present in both runs the cells pred, results, lower, upper "
+    "estimators; a quarter of the conformal requests carry a per-county fixed effect. Oracle: for every (estimand, level, alpha) present in both runs the cells pred, results, lower, upper "
     "and reporting of rows matched by the level's key columns are bit-identical; every table has exactly the key / "
     "category columns of its level (no _x/_y suffixes), one row per key, in both runs. Pairs where either request ends "
     "in the too-few-units error have nothing to compare and are counted trivial. Non-trivial: R' != R, both complete, "
@@ -43,6 +43,10 @@ def _strategy(draw):
     if req["pi"] != "bootstrap":
         k = draw(st.integers(1, 3))
         req["estimands"] = draw(st.lists(st.sampled_from(gen.VOTE_ESTIMANDS), min_size=k, max_size=k, unique=True))
+        # a fine-grained fixed effect (one level per county): which levels the interval models can fit depends on
+        # which rows are training rows, i.e. on the calibration split of each interval level
+        if draw(st.integers(0, 3)) == 0:
+            req["fe"] = {"county_fips": ["all"]}
     dims = ["alphas", "aggregates"] + (["estimands"] if req["pi"] != "bootstrap" else [])
     dim = draw(st.sampled_from(dims))
     op = draw(st.sampled_from(["subset", "superset", "permutation"]))
